@@ -445,8 +445,15 @@ impl ConfigActor {
 
     fn set_tmp_config(&mut self, key: ConfigKey, val: Arc<String>) {
         if let Some(v) = self.cache.get_mut(&key) {
+            let md5 = get_md5(&val);
+            if v.md5.as_str() == md5 {
+                // The node already serves this content. Marking the entry as tmp would make the
+                // next ConfigAdd with the same content look like a change on this node only,
+                // while the leader and a node that replays the log treat it as a no-op.
+                return;
+            }
             v.tmp = true;
-            v.md5 = Arc::new(get_md5(&val));
+            v.md5 = Arc::new(md5);
             v.content = val;
         } else {
             let mut config_val = ConfigValue::new(val);
